@@ -78,6 +78,14 @@ CLAIMED = {
                 note="Bounded part: all label assignments of up to 3 estimates x 3 ground truths over 2 camera frames, unique uuids, both uuid-first settings: each "
                      "object used at most once, pairs within one camera frame, pairing rule respected, number of label-correct pairs maximal. list.remove on "
                      "working copies in nested loops is outside the engine's list model.", ref="5/C11"),
+    "C15": dict(text="check_thresholds / check_nested_thresholds / set_thresholds are verified over dynamically typed symbolic values (type tag, length, items, two "
+                     "levels): a normal return guarantees one number per label (flat) or lists of exactly one number per label (nested), errors only for malformed "
+                     "input; _check_tasks (task supported by the manager), PerceptionEvaluationConfig._extract_params (exactly one range kind for 3-D, mandatory "
+                     "min_point_numbers, every exposed per-label list normalised) and MetricsScoreConfig._check_parameters (unknown metric parameter rejected, for a "
+                     "symbolic key) for all configuration dictionaries over the keys the code reads.",
+                note="One open known finding (unknown configuration key dropped before it reaches _check_parameters) is reported as KNOWN-FINDING. Broadcast / "
+                     "idempotence / no-padding of __get_thresholds and __get_nested_thresholds: bounded native harness (all nestings up to length 3, mixed types). "
+                     "CriticalObjectFilterConfig / PerceptionPassFailConfig / SensingEvaluationConfig._extract_params: harness only.", ref="5/C15"),
 }
 NA_REASON = "check not built yet in this session (planned in DESIGN.md section 5); not claimed"
 ALL = [f"C{n:02d}" for n in range(1, 21)]
